@@ -249,6 +249,10 @@ def check(prop_id, tier, seed, workers=None, budget_s=None, max_runs=None, verbo
         stopped_early = False
         for r in pool.imap(tasks):
             results.append(r)
+            for kid in r.get("known_ids") or []:
+                for kf in known_db.get("findings", []):
+                    if kf["id"] == kid:
+                        known_hits[kid] = kf
             if r.get("error"):
                 errors.append(r["error"])
                 if len(errors) > 5:
